@@ -21,6 +21,7 @@ import (
 	"github.com/ipfs/boxo/path"
 	"github.com/ipfs/boxo/path/resolver"
 	cid "github.com/ipfs/go-cid"
+	format "github.com/ipfs/go-ipld-format"
 	"github.com/ipfs/go-unixfsnode"
 	dagpb "github.com/ipld/go-codec-dagpb"
 	"github.com/ipld/go-ipld-prime/datamodel"
@@ -33,7 +34,7 @@ import (
 func main() { vlib.Run("C33", run) }
 
 func run(c *vlib.Ctx) {
-	c.Rule("case = one random tree (depth <= 4; each directory basic or HAMT with fan-out 8/16/32/64/256 forced through NewHAMTDirectory, 0..MaxEntries entries inserted in random order; names include dag-pb field names, list indices, strings shaped like HAMT link labels, blanks, %, unicode; leaves are files of several layouts and symlinks). Every existing path (trees above 160 entries: every directory plus 160 sampled entries) is resolved with ResolveToLastNode, ResolvePath and ResolvePathComponents; per directory (at most 24 per tree) a set of non-existing names (fresh, edited/re-cased/truncated existing names, the raw shard link labels of existing entries, bare shard prefixes, 'Links'/'Data') is resolved as last segment and followed by further segments; a few paths continue below a file. The block store honours context cancellation (reads under a done context fail), like a real store or remote exchange. Strata: small (<= 12 entries/dir), wide-shards (root HAMT of fan-out 8/16 with 100..300 entries, so the parent of the last segment has lazily loaded inner shards), wide (root HAMT with up to 400 entries, any fan-out), deep (depth 4), empty-hamt. distinct = FNV of the tree listing + queries; non-trivial = the tree has a HAMT with >= 2 shard levels measured by a plain dag-pb walk, an existing path crossing >= 2 directories one of which is a HAMT was resolved, and a missing name was checked both inside a HAMT and in the middle of a path")
+	c.Rule("case = one random tree (depth <= 4; each directory basic or HAMT with fan-out 8/16/32/64/256 forced through NewHAMTDirectory, 0..MaxEntries entries inserted in random order; names include dag-pb field names, list indices, strings shaped like HAMT link labels, blanks, %, unicode; leaves are files of several layouts and symlinks). Every existing path (trees above 160 entries: every directory plus 160 sampled entries) is resolved with ResolveToLastNode, ResolvePath and ResolvePathComponents; per directory (at most 24 per tree) a set of non-existing names (fresh, edited/re-cased/truncated existing names, the raw shard link labels of existing entries, bare shard prefixes, 'Links'/'Data') is resolved as last segment and followed by further segments; a few paths continue below a file. Fault step: in one HAMT with inner shards one inner shard block is made unreadable (I/O error or lost block) and entries stored below it (known from a plain dag-pb walk) are resolved as last segment: the error must not be ErrNoLink; entries of intact shards must resolve; absent names must not resolve. The block store honours context cancellation (reads under a done context fail), like a real store or remote exchange. Strata: small (<= 12 entries/dir), wide-shards (root HAMT of fan-out 8/16 with 100..300 entries, so the parent of the last segment has lazily loaded inner shards), wide (root HAMT with up to 400 entries, any fan-out), deep (depth 4), empty-hamt. distinct = FNV of the tree listing + queries; non-trivial = the tree has a HAMT with >= 2 shard levels measured by a plain dag-pb walk, an existing path crossing >= 2 directories one of which is a HAMT was resolved, and a missing name was checked both inside a HAMT and in the middle of a path")
 	c.Cases("small", c.N(260, 1500), func(k *vlib.Case) { oneTree(k, ufsgen.TreeOpts{MaxDepth: 3, MaxEntries: 12, MaxFileSize: 600, Symlinks: true}) })
 	c.Cases("wide-shards", c.N(60, 400), func(k *vlib.Case) {
 		// root = HAMT of fan-out 8/16 with >= 100 entries: the parent of the last
@@ -53,6 +54,11 @@ func emptyHamtErr(dir *ufsgen.Entry, err error) bool {
 	return dir.Kind == ufsgen.KHAMT && len(dir.Children) == 0 && err != nil && strings.Contains(err.Error(), "'Data' field not present")
 }
 
+type target struct {
+	segs []string
+	e    *ufsgen.Entry
+}
+
 type world struct {
 	k    *vlib.Case
 	env  *ufsgen.Env
@@ -62,6 +68,7 @@ type world struct {
 
 	sawHamtPath, sawMissHamt, sawMissMiddle bool
 	queries                                 int
+	sawFault                                bool
 	once                                    map[string]bool
 }
 
@@ -140,10 +147,6 @@ func oneTree(k *vlib.Case, o ufsgen.TreeOpts) {
 
 	// 1. existing paths: all of them up to 160 entries, otherwise every
 	// directory plus a random sample of 160 leaves
-	type target struct {
-		segs []string
-		e    *ufsgen.Entry
-	}
 	var all, dirTargets []target
 	root.Walk(nil, func(segs []string, e *ufsgen.Entry) {
 		all = append(all, target{segs, e})
@@ -151,6 +154,7 @@ func oneTree(k *vlib.Case, o ufsgen.TreeOpts) {
 			dirTargets = append(dirTargets, target{segs, e})
 		}
 	})
+	dirTargetsAll := append([]target(nil), dirTargets...)
 	if len(all) > 160 {
 		k.C.Count("trees_with_sampled_paths", 1)
 		vlib.Shuffle(r, all)
@@ -195,6 +199,9 @@ func oneTree(k *vlib.Case, o ufsgen.TreeOpts) {
 		below++
 		w.checkBelowLeaf(segs, e, r.Range(1, 2))
 	})
+
+	// 4. fault: an inner shard block of a multi-level HAMT becomes unreadable
+	w.faultPhase(dirTargetsAll)
 
 	if maxLvls >= 2 && w.sawHamtPath && w.sawMissHamt && w.sawMissMiddle {
 		k.Nontrivial()
@@ -526,4 +533,167 @@ func (w *world) checkBelowLeaf(segs []string, e *ufsgen.Entry, extra int) {
 		k.Fail("below-leaf-name", "ErrNoLink names the first segment below the leaf", full[len(segs)], nl.Name)
 	}
 	k.C.Count("below_leaf_queries", 1)
+}
+
+// innerShard is a non-root shard block of a HAMT with the entry names stored
+// in it or below it.
+type innerShard struct {
+	c     cid.Cid
+	names []string
+}
+
+// innerShards lists the non-root shard blocks of the HAMT rooted at dir by a
+// plain dag-pb walk.
+func innerShards(env *ufsgen.Env, dir cid.Cid) []innerShard {
+	var out []innerShard
+	var rec func(c cid.Cid, root bool) []string
+	rec = func(c cid.Cid, root bool) []string {
+		nd, err := env.DS.Get(context.Background(), c)
+		if err != nil {
+			panic(err)
+		}
+		pn := nd.(*merkledag.ProtoNode)
+		fsn, err := ft.FSNodeFromBytes(pn.Data())
+		if err != nil {
+			panic(err)
+		}
+		pl := len(fmt.Sprintf("%X", fsn.Fanout()-1))
+		var names []string
+		for _, l := range pn.Links() {
+			if len(l.Name) == pl {
+				names = append(names, rec(l.Cid, false)...)
+			} else {
+				names = append(names, l.Name[pl:])
+			}
+		}
+		if !root {
+			out = append(out, innerShard{c, names})
+		}
+		return names
+	}
+	rec(dir, true)
+	return out
+}
+
+var errInjected = errors.New("injected read fault (verif)")
+
+// faultPhase: in one HAMT directory with inner shards, reads of one inner
+// shard block fail (I/O-style error, or the block is "lost"). Entries stored
+// in or below that shard exist, so resolving them as the last segment must
+// fail with the read error, not with ErrNoLink ("a missing name yields
+// ErrNoLink" must not be turned around into reporting an existing name as
+// missing). Entries of other shards must still resolve; a name that is not in
+// the directory must never resolve.
+func (w *world) faultPhase(dirs []target) {
+	k, r := w.k, w.k.R
+	var cands []target
+	for _, t := range dirs {
+		if t.e.Kind == ufsgen.KHAMT && len(t.e.Children) >= 12 {
+			cands = append(cands, t)
+		}
+	}
+	if len(cands) == 0 {
+		return
+	}
+	t := cands[r.Intn(len(cands))]
+	shards := innerShards(w.env, t.e.Cid)
+	if len(shards) == 0 {
+		return
+	}
+	sh := shards[r.Intn(len(shards))]
+	// the shard block must not double as something else on the way (same CID
+	// elsewhere in this HAMT is fine: those entries are then affected as well)
+	affected := map[string]bool{}
+	for _, s2 := range shards {
+		if s2.c.Equals(sh.c) {
+			for _, n := range s2.names {
+				affected[n] = true
+			}
+		}
+	}
+	var fault error = errInjected
+	kind := "io-error"
+	if r.Bool() {
+		fault = format.ErrNotFound{Cid: sh.c}
+		kind = "lost-block"
+	}
+	k.Logf("fault: reads of inner shard %s of %s dir %q fail (%s); %d of %d entries live in or below it", sh.c, t.e.Kind, t.segs, kind, len(affected), len(t.e.Children))
+	w.env.SetFault(sh.c, fault)
+	defer w.env.ClearFaults()
+
+	var in, outside []*ufsgen.Entry
+	for _, ch := range t.e.Children {
+		if affected[ch.Name] {
+			in = append(in, ch)
+		} else if !ch.Cid.Equals(sh.c) {
+			outside = append(outside, ch)
+		}
+	}
+	vlib.Shuffle(r, in)
+	vlib.Shuffle(r, outside)
+	resolve := func(name string) (cid.Cid, error, bool) {
+		ip, ok := w.ipath(append(append([]string(nil), t.segs...), name))
+		if !ok {
+			return cid.Undef, nil, false
+		}
+		w.queries++
+		var c cid.Cid
+		var err error
+		if !vlib.Guard(k, "ResolveToLastNode", 10*time.Minute, func() { c, _, err = w.res.ResolveToLastNode(w.ctx, ip) }) {
+			return cid.Undef, nil, false
+		}
+		return c, err, true
+	}
+	for i := 0; i < 5 && i < len(in); i++ {
+		c, err, ok := resolve(in[i].Name)
+		if !ok {
+			continue
+		}
+		k.Logf("fault: resolve existing %q stored under the unreadable shard -> cid=%v err=%v (%T)", in[i].Name, c, err, err)
+		var nl *resolver.ErrNoLink
+		switch {
+		case err == nil && c.Equals(in[i].Cid):
+			k.C.Count("fault_resolved_without_the_shard", 1) // not wrong, just unexpected
+		case err == nil:
+			k.Fail("fault-existing-cid/"+kind, "an entry whose shard is unreadable resolves to its CID or fails", in[i].Cid.String(), c.String())
+		case errors.As(err, &nl):
+			k.Fail("fault-existing-reported-missing/"+kind, "ErrNoLink only for names that are not in the directory", "the read error of shard "+sh.c.String(), fmt.Sprintf("%q exists but: %v", in[i].Name, err))
+		default:
+			k.C.Count("fault_existing_gives_read_error", 1)
+			w.sawFault = true
+		}
+	}
+	for i := 0; i < 3 && i < len(outside); i++ {
+		c, err, ok := resolve(outside[i].Name)
+		if !ok {
+			continue
+		}
+		k.Logf("fault: resolve existing %q in an intact shard -> cid=%v err=%v", outside[i].Name, c, err)
+		if err != nil || !c.Equals(outside[i].Cid) {
+			k.Fail("fault-intact-entry/"+kind, "entries of readable shards still resolve", outside[i].Cid.String(), fmt.Sprintf("%q: %v err=%v", outside[i].Name, c, err))
+		} else {
+			k.C.Count("fault_intact_entries_ok", 1)
+		}
+	}
+	for i := 0; i < 3; i++ {
+		name := fmt.Sprintf("absent-%d-%s", i, ufsgen.RandName(r))
+		if t.e.Child(name) != nil {
+			continue
+		}
+		c, err, ok := resolve(name)
+		if !ok {
+			continue
+		}
+		var nl *resolver.ErrNoLink
+		switch {
+		case err == nil:
+			k.Fail("fault-missing-resolved/"+kind, "missing name => error", "error", fmt.Sprintf("%q resolved to %s", name, c))
+		case errors.As(err, &nl) && nl.Name != name:
+			k.Fail("fault-missing-name/"+kind, "ErrNoLink names the missing segment", name, nl.Name)
+		case errors.As(err, &nl):
+			k.C.Count("fault_missing_gives_nolink", 1)
+		default:
+			k.C.Count("fault_missing_gives_read_error", 1) // its hash path crosses the unreadable shard
+		}
+	}
 }
